@@ -165,3 +165,23 @@ PROG += [
     (_fi(lambda P, f: argbind.mismatches(P, f)), "def target(pattern, case_sensitive=True, negate=False, match=False):\n    return pattern\ndef caller(p, negate):\n    return target(p, negate)\n",
      "def target(pattern, case_sensitive=True, negate=False, match=False):\n    return pattern\ndef caller(p, negate):\n    return target(p, negate=negate)\n"),
 ]
+
+FN += [
+    (lambda n: lints.regex_punctuation_range(n), "import re\ndef f(s):\n    return re.compile(r'^[A-Za-z0-9_+-.]+$').match(s)\n", "import re\ndef f(s):\n    return re.compile(r'^[A-Za-z0-9_+.-]+$').match(s)\n"),
+]
+PROG += [
+    (lambda src: lints.implicit_concat_in_collection(ast.parse(src), src), 'DIRS = (\n    "/etc",\n    "/opt"\n    "/home",\n    "/var",\n)\n', 'DIRS = (\n    "/etc",\n    "/opt",\n    "/home",\n    "/var",\n)\n'),
+]
+
+
+def _attr_memo(src):
+    from . import effects, memokey
+    P, mi = _mini(src)
+    return [x for f in mi.funcs.values() for x in memokey.attr_memo_param_omitted(effects.engine(P).fx(f))]
+
+
+PROG += [
+    (_attr_memo, "class D:\n    def render(self, func):\n        if self._rendered is not None:\n            return self._rendered\n        self._rendered = ' '.join(func(x) for x in self.items)\n        return self._rendered\n",
+     "class D:\n    def render(self, func):\n        return ' '.join(func(x) for x in self.items)\n"),
+    (_fi(lambda P, f: iterreuse.findings(P, f)), "def f(cats, names):\n    cats_iter = iter(cats)\n    return [(c, p) for p in names for c in cats_iter]\n", "def f(cats, names):\n    cats_iter = iter(cats)\n    return [(c, p) for c in cats_iter for p in names]\n"),
+]
